@@ -439,6 +439,8 @@ class PackStrategy(Strategy):
             node = self.node.children[self.current_idx]
             if node:
                 return node
+            # Skip the hole left by a removed node.
+            self.current_idx += 1
 
         return None
 
